@@ -172,7 +172,7 @@ func (u *Unit) solve(ob *Obligation, tier string) {
 		return
 	}
 	// pure E-matching first: answers in milliseconds when the triggers fit, "unknown" otherwise
-	r := runSolver(z3em, q, 2*time.Second)
+	r := runSolver(z3em, q, 4*time.Second)
 	total := r.ms
 	if r.result != "unsat" {
 		// full z3 on the variant without the access-function axiom: finds proofs by MBQI and, for
@@ -185,11 +185,14 @@ func (u *Unit) solve(ob *Obligation, tier string) {
 		// race the others; z3 without E-matching (pure model-based instantiation) finds models of failing
 		// obligations in quantified contexts where the default configuration keeps instantiating
 		var wg sync.WaitGroup
-		rs := make([]solveResult, 3)
-		wg.Add(3)
+		// ... and pure E-matching once more with the long budget: on a loaded machine the two seconds of the first
+		// attempt are not enough for the larger units, and some proofs are found by no other configuration
+		rs := make([]solveResult, 4)
+		wg.Add(4)
 		go func() { defer wg.Done(); rs[0] = runSolver(z3old, q, t2) }()
 		go func() { defer wg.Done(); rs[1] = runSolver(cvc5, u.query(ob, true, false), t2) }()
 		go func() { defer wg.Done(); rs[2] = runSolver(z3mb, q, t2) }()
+		go func() { defer wg.Done(); rs[3] = runSolver(z3em, q, t2) }()
 		wg.Wait()
 		for _, x := range rs {
 			if x.ms > 0 {
